@@ -301,7 +301,7 @@ def part_e(L, log):
         (r" as SendStream::send_id$", c08.c_send_id),
         (r" as RecvStream::stop_sending$", c08.eff_stream("stop_sending")),
         (r" as SendStream::reset$", c08.eff_stream("reset")),
-        (r"^HashSet::insert$", c08.c_hashset_insert),
+        (r"^HashSet::insert$|^BTreeSet::insert$|^Vec::push$", c08.c_hashset_insert),
     ] + c08.base_contracts()
     ex = E.make_executor(L, c08.INLINE_COMMON, con, max_unroll=3)
     st = State()
@@ -351,18 +351,32 @@ def check(L, tier, log, samples):
     queries += exc.queries
     states += nc
     wit.update({"C." + k: v for k, v in wc.items()})
-    exd, vd, nd, wd = part_d(L, log)
-    viols += vd
-    fns |= exd.functions_used
-    queries += exd.queries
-    states += nd
-    wit.update({"D." + k: v for k, v in wd.items()})
+    d_solver_s = 0.0
+    try:
+        exd, vd, nd, wd = part_d(L, log)
+        viols += vd
+        fns |= exd.functions_used
+        queries += exd.queries
+        states += nd
+        d_solver_s = exd.solver_s
+        wit.update({"D." + k: v for k, v in wd.items()})
+    except Inconclusive as e:
+        # part D abstracts ongoing_streams as a set (HashSet contracts, arbitrary pre-state). With another representation
+        # it does not apply; the history part G, which executes the collection's operations on an explicit list, decides.
+        nd = 0
+        log(f"D (arbitrary-state step over an abstract set) not applicable to this representation of ongoing_streams: {e}; decided by the histories of part G only")
     exe, ve, ne, we = part_e(L, log)
     viols += ve
     fns |= exe.functions_used
     queries += exe.queries
     states += ne
     wit.update({"E." + k: v for k, v in we.items()})
+    exg, vg, ng, wg = part_g(L, log, tier)
+    viols += vg
+    fns |= exg.functions_used
+    queries += exg.queries
+    states += ng
+    wit.update(wg)
     exf, vf, nf, wf = part_f(L, log)
     viols += vf
     fns |= exf.functions_used
@@ -371,9 +385,168 @@ def check(L, tier, log, samples):
     wit.update({"F." + k: v for k, v in wf.items()})
     log(f"A resolver {na} path(s); B RequestEnd::drop {nb}; C accept_with_frame {nc} paths; D completion {nd} paths; E accept gate {ne} paths")
     stats = {"states": states, "transitions": queries, "queries": queries,
-             "solver_s": round(exa.solver_s + exb.solver_s + exc.solver_s + exd.solver_s + exe.solver_s, 2),
+             "solver_s": round(exa.solver_s + exb.solver_s + exc.solver_s + d_solver_s + exe.solver_s, 2),
              "witness": wit, "functions": sorted(fns), "wall_s": round(time.time() - t0, 1)}
     return viols, stats
+
+
+def part_g(L, log, tier):
+    """Histories of the accounting set itself, with the collection's operations executed with their std semantics on an
+    explicit list (not abstracted): 3 (quick) / 4 (thorough) requests are in progress (ids 0,4,8[,12] - only their order
+    matters, StreamId's Ord is numeric, C16), the completion channel reports their ends in EVERY order, all in one poll or
+    spread over two polls: after the last one poll_requests_completion must answer Ready, before it Pending. Supported
+    representations of ongoing_streams: HashSet (insert/remove/is_empty/contains) and Vec (push, binary_search with the
+    std algorithm - also on a list that is no longer sorted -, swap_remove, remove, is_empty, contains)."""
+    import itertools
+    n = 3 if tier == "quick" else 4
+    ids = [4 * i for i in range(n)]
+
+    def sid_val(v):
+        v = C.deref(v)
+        x = E.get_field(v, (None, 0)) if isinstance(v, Obj) else v
+        x = z3.simplify(x)
+        if not z3.is_bv_value(x):
+            raise Inconclusive("request id is not concrete in the history spec")
+        return x.as_long()
+
+    def c_poll_recv(ex, st, key, argv, dest_ty, raw):
+        def ap(ex, st, a):
+            w = st.world
+            if w["inbox"]:
+                i = w["inbox"].pop(0)
+                return ex.make_enum(dest_ty, "Ready", [ex.make_enum("Option<StreamId>", "Some", [c08.sid(z3.BitVecVal(i, 64))])])
+            return ex.make_enum(dest_ty, "Pending")
+        return [Case(None, ap)]
+
+    def op(fn):
+        def f(ex, st, key, argv, dest_ty, raw):
+            return [Case(None, lambda ex, st, a: fn(ex, st, a, dest_ty))]
+        return f
+
+    def set_remove(ex, st, a, dest_ty):
+        v = sid_val(a[1])
+        present = v in st.world["ongoing"]
+        st.world["ongoing"] = [x for x in st.world["ongoing"] if x != v]
+        return z3.BoolVal(present)
+
+    def set_insert(ex, st, a, dest_ty):
+        v = sid_val(a[1])
+        fresh = v not in st.world["ongoing"]
+        if fresh:
+            st.world["ongoing"].append(v)
+        return z3.BoolVal(fresh)
+
+    def coll_is_empty(ex, st, a, dest_ty):
+        return z3.BoolVal(len(st.world["ongoing"]) == 0)
+
+    def coll_contains(ex, st, a, dest_ty):
+        return z3.BoolVal(sid_val(a[1]) in st.world["ongoing"])
+
+    def vec_push(ex, st, a, dest_ty):
+        st.world["ongoing"].append(sid_val(a[1]))
+        return UNIT
+
+    def vec_binary_search(ex, st, a, dest_ty):
+        # core::slice::binary_search_by as in the standard library (the result on an unsorted slice is whatever this
+        # algorithm yields)
+        lst = st.world["ongoing"]
+        key_ = sid_val(a[1])
+        size = len(lst)
+        if size == 0:
+            return ex.make_enum(dest_ty, "Err", [z3.BitVecVal(0, 64)])
+        base = 0
+        while size > 1:
+            half = size // 2
+            mid = base + half
+            if not lst[mid] > key_:
+                base = mid
+            size -= half
+        if lst[base] == key_:
+            return ex.make_enum(dest_ty, "Ok", [z3.BitVecVal(base, 64)])
+        return ex.make_enum(dest_ty, "Err", [z3.BitVecVal(base + (1 if lst[base] < key_ else 0), 64)])
+
+    def idx_of(v):
+        v = z3.simplify(v)
+        if not z3.is_bv_value(v):
+            raise Inconclusive("symbolic index into ongoing_streams")
+        return v.as_long()
+
+    def vec_swap_remove(ex, st, a, dest_ty):
+        lst = st.world["ongoing"]
+        i = idx_of(a[1])
+        if i >= len(lst):
+            st.world["__panicked"] = True
+            st.effects.append(("panic", "swap_remove index out of bounds", "", ""))
+            return UNIT
+        out = lst[i]
+        lst[i] = lst[-1]
+        lst.pop()
+        return c08.sid(z3.BitVecVal(out, 64))
+
+    def vec_remove(ex, st, a, dest_ty):
+        lst = st.world["ongoing"]
+        i = idx_of(a[1])
+        if i >= len(lst):
+            st.world["__panicked"] = True
+            st.effects.append(("panic", "remove index out of bounds", "", ""))
+            return UNIT
+        return c08.sid(z3.BitVecVal(lst.pop(i), 64))
+    con = [
+        (r"^UnboundedReceiver::poll_recv$", c_poll_recv),
+        (r"^HashSet::remove$|^BTreeSet::remove$", op(set_remove)), (r"^HashSet::insert$|^BTreeSet::insert$", op(set_insert)),
+        (r"^HashSet::is_empty$|^BTreeSet::is_empty$|^Vec::is_empty$|\]::is_empty$|^\[T\]::is_empty$", op(coll_is_empty)),
+        (r"^HashSet::contains$|^BTreeSet::contains$|\]::contains$|^\[T\]::contains$", op(coll_contains)),
+        (r"^Vec::push$", op(vec_push)), (r"\]::binary_search$|^\[T\]::binary_search$", op(vec_binary_search)),
+        (r"^Vec::swap_remove$", op(vec_swap_remove)), (r"^Vec::remove$", op(vec_remove)),
+        (r"^Vec as Deref::deref$|^Vec as DerefMut::deref_mut$", C.c_identity),
+    ] + c08.base_contracts()
+    ex = E.make_executor(L, [], con, max_unroll=n + 2)
+    viols = []
+    wit = {"G.drained_in_every_order": False, "G.pending_before_the_last_end": False}
+    paths = 0
+    all_ok = True
+    for perm in itertools.permutations(ids):
+        for split in (n, n - 1):         # all ends in one poll; or the last one in a second poll
+            st = State()
+            st.world.update({"ongoing": list(ids), "inbox": list(perm[:split])})
+            conn = Cell(Obj("server::connection::Connection<C, B>"))
+            st.world["conn"] = conn
+            E.call(ex, st, r"server::connection::<impl[^>]*>::poll_requests_completion$", [Ref(conn), Ref(Cell(Obj("Context")))])
+            outs = E.collect(ex, st)
+            if ex.unroll_exceeded:
+                raise Inconclusive("loop bound exceeded: " + repr(ex.unroll_exceeded[:3]))
+            for s, ret in outs:
+                paths += 1
+                if ret == ("panic",):
+                    viols.append({"key": "c09.history.panic", "what": "poll_requests_completion panics", "model": {"order": list(perm)}})
+                    all_ok = False
+                    continue
+                ready = ret.discr.as_long() == 0
+                if split == n:
+                    if not ready:
+                        viols.append({"key": "c09.history.not_drained_after_every_request_ended",
+                                      "what": f"{n} requests in progress end in the order {list(perm)}: after the last end poll_requests_completion still answers Pending "
+                                              "(an ended id stays in ongoing_streams): accept() never reports 'no more requests'",
+                                      "model": {"order": list(perm), "left": list(s.world["ongoing"])}})
+                        all_ok = False
+                    continue
+                if ready:
+                    viols.append({"key": "c09.history.drained_while_a_request_is_in_progress",
+                                  "what": f"poll_requests_completion answers Ready although request {perm[-1]} has not ended", "model": {"order": list(perm)}})
+                    all_ok = False
+                    continue
+                wit["G.pending_before_the_last_end"] = True
+                s.world["inbox"] = [perm[-1]]
+                E.call(ex, s, r"server::connection::<impl[^>]*>::poll_requests_completion$", [Ref(s.world["conn"]), Ref(Cell(Obj("Context")))])
+                for s2, r2 in E.collect(ex, s):
+                    paths += 1
+                    if r2 == ("panic",) or r2.discr.as_long() != 0:
+                        viols.append({"key": "c09.history.not_drained_after_every_request_ended",
+                                      "what": f"{n} requests in progress end in the order {list(perm)} (the last one in a later poll): poll_requests_completion still answers Pending",
+                                      "model": {"order": list(perm), "left": list(s2.world["ongoing"])}})
+                        all_ok = False
+    wit["G.drained_in_every_order"] = all_ok
+    return ex, viols, paths, wit
 
 
 def part_f(L, log):
@@ -436,6 +609,9 @@ def part_f(L, log):
 def replay_args(v):
     if v["key"] in ("c09.resolver.owns_no_request_end", "c09.request_end.not_reported_when_request_is_refused"):
         return ("c09_refused_request_blocks_shutdown", [])
+    if v["key"].startswith("c09.history."):
+        order = v.get("model", {}).get("order") or [0, 8, 4]
+        return ("c09_end_order", [",".join(str(i) for i in order)])
     if v["key"] in ("c09.split.halves_do_not_share_one_request_end", "c09.request_end.accepted_request_holds_wrong_number_of_ends"):
         return ("c09_split_halves", [])
     return None
